@@ -25,6 +25,7 @@ func init() {
 		Scenarios: []Scenario{{Name: "S-NEST", Weight: 3, Run: c11Run}, {Name: "S-ORDER/after-loop-replacement", Weight: 1, Run: c11OrderRun}},
 		Quick:     200000,
 		Thorough:  3000000,
+		Require:   []string{"arrival.whileHandlerBlocked", "order.loopReplacedBefore", "readerLoop.replacedWhileInHandler"},
 		Assume: []string{
 			"'processing continues while it waits' is judged as: a nested operation has returned at the quiescent point after its answer was handed to the connection (parked goroutines released first)",
 			"completeness (every accepted message dispatched) is only demanded of runs in which the connection stays open; order only of runs in which no handler blocked",
